@@ -266,3 +266,76 @@ def run(ctx):
             s = Slice(F, rn, through_calls=True).operand(t["args"][1])
             ctx.check("C12-d", "ReadLease::renew#stores-args", s.has_param("deadline_ms") and s.has_param("term") and s.has_call(r"ReadLease::pack$"),
                       "renew stores pack(term, deadline_ms)", "renew does not store pack(term, deadline_ms) of its own arguments", loc(rn, bi))
+    _lease_tables(ctx)
+
+
+MASK48 = str((1 << 48) - 1)
+
+
+def _lease_tables(ctx):
+    """C12-d exact: decision tables of is_valid / is_valid_for_leader compared with the specification on all orderings
+    of (stored deadline, now) and (stored term, current term); bit layout of pack / unpack"""
+    F = ctx.F
+
+    def loaded(e):
+        return mentions(e, lambda x: x[0] == "call" and re.search(r"atomic::Atomic\w*::load$", strip_generics(x[1])) is not None) and not mentions(e, lambda x: x[0] == "param" and x[1] >= 2)
+    for nm, now_idx, term_idx in (("is_valid", 2, None), ("is_valid_for_leader", 3, 2)):
+        f = F.try_method("ReadLease", nm)
+        if not f:
+            continue
+        paths = table_of(ctx, "C12-d", f, "ReadLease::" + nm)
+        if not paths:
+            continue
+        cmps = []
+
+        def walk(e):
+            if isinstance(e, tuple):
+                if e and e[0] == "bin" and e[1] in ("Lt", "Le", "Gt", "Ge", "Eq", "Ne"):
+                    cmps.append(e)
+                for x in e:
+                    walk(x)
+        for p in paths:
+            walk(p.ret)
+            for (c, _t) in p.conds:
+                walk(c)
+        cmps = list(dict.fromkeys(cmps))
+        now = ("param", now_idx, f.local_name(now_idx))
+        dead = [x for c in cmps for x in (c[2], c[3]) if loaded(x) and (c[2] == now or c[3] == now)]
+        terms = [x for c in cmps for x in (c[2], c[3]) if loaded(x) and term_idx and (mentions(c[2], par(term_idx)) or mentions(c[3], par(term_idx)))]
+        curs = [x for c in cmps for x in (c[2], c[3]) if term_idx and mentions(x, par(term_idx)) and not loaded(x)]
+        key = "ReadLease::%s#table" % nm
+        if len(set(dead)) != 1 or (term_idx and (len(set(terms)) != 1 or len(set(curs)) != 1)) or len(cmps) != (2 if term_idx else 1):
+            ctx.bad("C12-d", key, "UNRECOGNISED-FORM: expected exactly one comparison of the stored deadline with now_ms%s, found %s"
+                    % (" and one of the stored term with current_term" if term_idx else "", [sym_show(c) for c in cmps]), "%s:%s" % (f.file, f.line))
+            continue
+        q_dead, q_term, q_cur = dead[0], (terms[0] if term_idx else None), (curs[0] if term_idx else None)
+        # which component of the packed word is the deadline / the term
+        lay_ok = (mentions(q_dead, lambda x: x == ("const", MASK48)) or (q_dead[0] == "field" and q_dead[2] == "1" and mentions(q_dead, lambda x: x[0] == "call" and x[1].endswith("ReadLease::unpack"))))
+        if term_idx:
+            lay_ok = lay_ok and q_term[0] == "field" and q_term[2] == "0" and q_cur == ("bin", "BitAnd", ("param", term_idx, f.local_name(term_idx)), ("const", "65535"))
+        ctx.check("C12-d", "ReadLease::%s#components" % nm, lay_ok, "deadline = low 48 bits, term = high 16 bits compared with current_term & 0xFFFF",
+                  "the compared quantities are not (deadline component, now_ms)%s: %s" % (" / (term component, current_term & 0xFFFF)" if term_idx else "", [sym_show(c) for c in cmps]), "%s:%s" % (f.file, f.line))
+
+        def spec(w):
+            v = w.int(q_dead) > w.int(now)
+            if term_idx:
+                v = v and w.int(q_term) == w.int(q_cur)
+            return v
+        run_table(ctx, "C12-d", key, paths, lambda p, w: w.truth(p.ret), spec, "%s:%s" % (f.file, f.line), extra_exprs=[c for c in cmps],
+                  what="valid iff stored deadline > now_ms%s" % (" and stored term == current_term (16 bit)" if term_idx else ""))
+    up = F.try_method("ReadLease", "unpack")
+    pk = F.try_method("ReadLease", "pack")
+    if up:
+        paths = table_of(ctx, "C12-d", up, "ReadLease::unpack")
+        if paths:
+            want = ("agg", "tuple", "", (("0", ("bin", "Shr", ("param", 1, up.local_name(1)), ("const", "48"))), ("1", ("bin", "BitAnd", ("param", 1, up.local_name(1)), ("const", MASK48)))))
+            ctx.check("C12-d", "ReadLease::unpack#layout", len(paths) == 1 and paths[0].ret == want, "unpack(v) = (v >> 48, v & (2^48-1))",
+                      "unpack is not (v >> 48, v & (2^48-1)): %s" % [sym_show(p.ret) for p in paths], "%s:%s" % (up.file, up.line))
+    if pk:
+        paths = table_of(ctx, "C12-d", pk, "ReadLease::pack")
+        if paths:
+            t, d = ("param", 1, pk.local_name(1)), ("param", 2, pk.local_name(2))
+            want = ("bin", "BitOr", ("bin", "Shl", ("bin", "BitAnd", t, ("const", "65535")), ("const", "48")), ("bin", "BitAnd", d, ("const", MASK48)))
+            rets = set(p.ret for p in paths if p.ret is not None)
+            ctx.check("C12-d", "ReadLease::pack#layout", rets == {want}, "pack(term, deadline) = ((term & 0xFFFF) << 48) | (deadline & (2^48-1))",
+                      "pack is not ((term & 0xFFFF) << 48) | (deadline & (2^48-1)): %s" % [sym_show(r) for r in rets], "%s:%s" % (pk.file, pk.line))
